@@ -46,7 +46,7 @@ for pid in ALL:
         "replay_cmd_template": f"./check {pid} --replay {{path}}",
         "engine": "lean4-model+correspondence",
         "level_claimed": {
-            "category": "proof",
+            "category": spec.get("level", "proof"),
             "text": spec.get("level_text", "Lean 4 theorems about a model of the code (obligations listed in the evidence), tied to /repo by "
                                            "regenerated decision tables (T1) and correspondence/oracle streams (T2) on every run"),
             "design_ref": f"DESIGN.md section 6 ({pid})",
